@@ -146,7 +146,8 @@ def ensure_builds(names, log=print):
 # jobs
 # ----------------------------------------------------------------------------------------
 class Job:
-    def __init__(self, build, args, timeout=300, env=None, tag="", cost=1):
+    def __init__(self, build, args, timeout=300, env=None, tag="", cost=1, abort_prop=None):
+        self.abort_prop = abort_prop  # property a fatal sanitizer report in this job is attributed to
         self.build = build      # build name
         self.args = args        # dict or list
         self.timeout = timeout
@@ -275,6 +276,18 @@ def aggregate(results, out=None):
     for r in results:
         job, res = r["job"], r["result"]
         out.runs += 1
+        if res is None and job.abort_prop and not r["timed_out"]:
+            import re
+            m = re.search(r"(runtime error: [^\n]*|ERROR: AddressSanitizer: [^\n]*|ERROR: LeakSanitizer: [^\n]*)", r["stderr"])
+            if m:
+                what = re.sub(r"0x[0-9a-f]+|pid=\d+|==\d+==", "", m.group(1))
+                what = re.sub(r"\d+", "N", what)[:120].strip()
+                frame = re.search(r"#\d+ [^\n]*? in ([^\n]*?(?:/src/|/include/dbgroup/)[^\n]*)", r["stderr"])
+                out.add_violation(job.abort_prop, "sanitizer-abort:" + what,
+                                  "fatal sanitizer report in %s %s: %s; first library frame: %s" % (
+                                      job.build, job.tag, m.group(1), frame.group(1) if frame else "?"), 1, job)
+                out.violations[(job.abort_prop, "sanitizer-abort:" + what)]["sanitizer_report"] = r["stderr"][:3500]
+                continue
         if res is None:
             why = "timeout after %ds" % job.timeout if r["timed_out"] else "exit code %s without RESULT" % r["rc"]
             out.inconclusive.append("%s %s: %s; stderr tail: %s" % (job.build, job.tag, why, r["stderr"][-600:]))
@@ -282,7 +295,10 @@ def aggregate(results, out=None):
         if res.get("status") == "inconclusive":
             out.inconclusive.append("%s %s: %s" % (job.build, job.tag, res.get("strings", {}).get("why", "")))
         for k, v in res.get("counters", {}).items():
-            out.counters[k] = out.counters.get(k, 0) + v
+            if k.startswith("max_"):
+                out.counters[k] = max(out.counters.get(k, 0), v)
+            else:
+                out.counters[k] = out.counters.get(k, 0) + v
         for s in res.get("signatures", []):
             out.signatures.add(s)
         for p, vals in res.get("chaos", {}).items():
